@@ -11,7 +11,7 @@ DESIGN_REF = 'DESIGN.md section 5, C11'
 TECHNIQUE = ('exhaustive integer sweep in both modes against a reference ladder + '
              'model-based stateful testing of the legacy switch (operation sequences '
              'on/set/encode against a one-boolean model, generated and shrunk by Hypothesis)')
-RULE = ('(ladder) every integer in [-70000,70000] and within +-2 of every boundary of both '
+RULE = ('(ladder) every integer in [-70000,70000] (thorough: [-2^22,2^22]) and within +-2 of every boundary of both '
         'ladders x mode {default, legacy via explicit True, legacy via the argument-less '
         'call} x position {bare, in an array, in a table, nested 3 deep}: the emitted type '
         'tag and width of every integer (found by walking the output with the reference '
@@ -118,7 +118,8 @@ def int_nontrivial(case):
 
 
 def ladder_bulk(tier, shard, nshards, rec):
-    ints = list(range(-70000, 70001)) + [e for e in S.LADDER_EDGES if abs(e) > 70000]
+    span = 70000 if tier == 'quick' else 2 ** 22      # thorough: [-2^22, 2^22]
+    ints = list(range(-span, span + 1)) + [e for e in S.LADDER_EDGES if abs(e) > span]
     mine = ints[shard::nshards]
     n = nt = 0
     for mode in MODES:
